@@ -9,6 +9,15 @@ import kanirun
 from common import CACHE, VERIF, Lock, env_offline, inject_hook, log, scratch_copy, write_replay
 
 REPLAY_TARGET = os.path.join(CACHE, "replay-target")
+CLOCKSHIM = os.path.join(CACHE, "libverifclock.so")
+
+
+def ensure_clockshim():
+    src = os.path.join(VERIF, "lib", "native", "clockshim.c")
+    if not os.path.exists(CLOCKSHIM) or os.path.getmtime(CLOCKSHIM) < os.path.getmtime(src):
+        os.makedirs(CACHE, exist_ok=True)
+        subprocess.run(["clang", "-shared", "-fPIC", "-O1", "-o", CLOCKSHIM, src, "-ldl"], check=False)
+    return CLOCKSHIM if os.path.exists(CLOCKSHIM) else None
 
 
 def concrete_values(modname, harness, timeout_s=900):
@@ -34,6 +43,52 @@ def concrete_values(modname, harness, timeout_s=900):
     return cands, ""
 
 
+def _build_then_run(cmd, scratch, env, timeout_s):
+    """build the test binary without the shim (so cargo/rustc are unaffected), then run it with LD_PRELOAD=clock shim"""
+    i = cmd.index("--")
+    build = cmd[:i] + ["--no-run"]
+    b = subprocess.run(build, cwd=scratch, env=env, capture_output=True, text=True, timeout=timeout_s)
+    if b.returncode != 0:
+        return b
+    env2 = dict(env)
+    shim = ensure_clockshim()
+    if shim:
+        env2["LD_PRELOAD"] = shim
+    return subprocess.run(cmd, cwd=scratch, env=env2, capture_output=True, text=True, timeout=timeout_s)
+
+
+def native_driver(modname, driver, case, timeout_s=3600):
+    """Run a native observation driver (`verif_replay_entry` of module verif_kani_<modname>) with a JSON case;
+    returns (obs dict or None, transcript).  The driver prints one line `VERIF-OBS {json}`."""
+    with Lock("replay"):
+        scratch = scratch_copy("replay")
+        for name, rel in kanirun.ATTACH.items():
+            hf = os.path.join(VERIF, "kani", name + ".rs")
+            if os.path.exists(hf) and os.path.exists(os.path.join(scratch, rel)):
+                inject_hook(scratch, rel, f'#[cfg(any(kani, verif_replay))]\n#[path = "{hf}"]\nmod verif_kani_{name};')
+        env = env_offline({
+            "RUSTFLAGS": "--cfg verif_replay -A warnings",
+            "VERIF_REPLAY_HARNESS": driver,
+            "VERIF_REPLAY_CASE": json.dumps(case),
+        })
+        cmd = ["cargo", "test", "--offline", "--lib", "--target-dir", REPLAY_TARGET, f"verif_kani_{modname}::verif_replay_entry", "--",
+               "--nocapture", "--test-threads", "1"]
+        try:
+            p = _build_then_run(cmd, scratch, env, timeout_s)
+        except subprocess.TimeoutExpired:
+            return None, "native driver build/run timed out"
+    transcript = (p.stdout[-4000:] + "\n" + p.stderr[-3000:])
+    m = re.search(r"VERIF-OBS (\{.*\})\s*$", p.stdout, re.M)
+    if not m:
+        if "panicked" in p.stdout + p.stderr and "running 1 test" in p.stdout:
+            return {"panicked": True, "panic_text": (p.stdout + p.stderr)[-1500:]}, transcript
+        return None, transcript
+    try:
+        return json.loads(m.group(1)), transcript
+    except ValueError:
+        return None, transcript
+
+
 def native_replay(modname, harness, vals, tries=3, timeout_s=3600):
     """Run the harness body natively (cfg(verif_replay) unit test inside a scratch copy of the crate)
     with the solver's values.  Returns (reproduced: bool|None, transcript)."""
@@ -54,7 +109,7 @@ def native_replay(modname, harness, vals, tries=3, timeout_s=3600):
         transcript = ""
         for i in range(tries):
             try:
-                p = subprocess.run(cmd, cwd=scratch, env=env, capture_output=True, text=True, timeout=timeout_s)
+                p = _build_then_run(cmd, scratch, env, timeout_s)
             except subprocess.TimeoutExpired:
                 return None, "native replay build/run timed out"
             transcript = (p.stdout[-3000:] + "\n" + p.stderr[-3000:])
@@ -77,6 +132,7 @@ def native_replay(modname, harness, vals, tries=3, timeout_s=3600):
 def discharge(out, modname, harnesses, timeout_s, logname, prop_names=None, replay=True):
     """harnesses: {harness_name: description}.  Adds one obligation per harness to `out`."""
     res, logp, wall = kanirun.run_harnesses(modname, list(harnesses), timeout_s, logname=logname)
+    reproduced_one = False
     for h, desc in harnesses.items():
         r = res[h]
         st = r["status"]
@@ -91,7 +147,10 @@ def discharge(out, modname, harnesses, timeout_s, logname, prop_names=None, repl
                 out.vacuity.append(f"{h}: {r.get('covers_sat', 0)}/{r.get('covers_total', 0)} cover goals satisfied")
         elif st == "violated":
             detail = r["detail"]
-            if replay:
+            if replay and reproduced_one:
+                st = "inconclusive"
+                detail = "kani reports a failed check (not replayed: another harness of this run already reproduced natively): " + r["detail"]
+            elif replay:
                 cands, raw = concrete_values(modname, h)
                 if cands is None:
                     st = "inconclusive"
@@ -109,6 +168,7 @@ def discharge(out, modname, harnesses, timeout_s, logname, prop_names=None, repl
                     extra["replay"] = rp
                     if ok is True:
                         st = "violated"
+                        reproduced_one = True
                         m = re.search(r"VERIF-REPLAY-CHECK-FAILED (\S+)", transcript)
                         detail = f"reproduced natively ({m.group(1) if m else 'panic'}): " + r["detail"]
                     elif ok is False:
